@@ -808,6 +808,8 @@ class Interp:
                 v = self.exec_body(b, name, [])
             self.const_cache[name] = v
             return self.const_value_copy(v)
+        if sg.split('::')[-1] in ('RangeFull',):
+            return Adt('RangeFull', None, [])
         # function item
         return FnRef(s)
 
@@ -1617,6 +1619,9 @@ class Interp:
         # verif runtime intercepts
         if last.startswith('vrt_') and last in models:
             return ('model', models[last])
+        ov = self.models_mod.OVERRIDES.get(sg) or self.models_mod.OVERRIDES.get('::'.join(sg.split('::')[-2:]))
+        if ov is not None:
+            return ('model', ov)
         if sg in self.prog.bodies:
             return ('mir', sg)
         q = self.parse_qualified(callee)
